@@ -475,7 +475,25 @@ func reachImpl(fn *ssa.Function, start ssa.Instruction, startEdge *Edge, cut Edg
 		seenTop[key{fn.Blocks[0], nil, ""}] = true
 	default:
 		r := RefOf(start)
-		work = append(work, item{r.B, r.I + 1, nil, ""})
+		// branch facts implied by control dependence: a dominating If one of whose successors
+		// (with that If as only predecessor) dominates the start block
+		env0 := map[string]constant.Value{}
+		for d := r.B.Idom(); d != nil; d = d.Idom() {
+			if IfOf(d) == nil || len(d.Succs) != 2 {
+				continue
+			}
+			for si, sb := range d.Succs {
+				other := d.Succs[1-si]
+				if len(sb.Preds) == 1 && (sb == r.B || sb.Dominates(r.B)) && !(other == r.B || other.Dominates(r.B)) {
+					if v, val, ok := condFact(d, si); ok {
+						if _, dup := env0["V"+v.Name()]; !dup {
+							env0["V"+v.Name()] = constant.MakeBool(val)
+						}
+					}
+				}
+			}
+		}
+		work = append(work, item{r.B, r.I + 1, nil, encodeEnv(env0)})
 	}
 	// location key of an address: tracked bool cell, or field of an SSA pointer value
 	locOf := func(addr ssa.Value) string {
